@@ -72,7 +72,10 @@ def infer_redirection(url, recursive=True):
             elif "youtube.com/redirect?" in url:
                 target = "https://" + potential_target
 
-    if target is None:
+    # NOTE: a genuine target is embedded in the url, hence strictly shorter.
+    # Anything else (e.g. a relative target joined back onto a url carrying the
+    # parameter in its host) would be followed forever
+    if target is None or len(target) >= len(url):
         return url
 
     if recursive:
